@@ -1,9 +1,12 @@
 //! C11 (runtime part): every small `Response<Empty>` through `IntoResponse::<MyMsg>::into_response`.
 use serde_json::{json, Value};
-use sylvia::cw_std::{
-    to_json_string, AnyMsg, Attribute, BankMsg, Binary, Coin, CosmosMsg, DistributionMsg, Empty, Event, GovMsg, IbcMsg,
-    IbcTimeout, ReplyOn, Response, StakingMsg, SubMsg, Timestamp, Uint128, VoteOption, WasmMsg,
-};
+use sylvia::cw_std::{to_json_string, Attribute, BankMsg, Binary, Coin, CosmosMsg, Empty, Event, ReplyOn, Response, SubMsg, Uint128, WasmMsg};
+#[cfg(feature = "f_cw20")]
+use sylvia::cw_std::AnyMsg;
+#[cfg(feature = "f_staking")]
+use sylvia::cw_std::{DistributionMsg, StakingMsg};
+#[cfg(feature = "f_stargate")]
+use sylvia::cw_std::{GovMsg, IbcMsg, IbcTimeout, Timestamp, VoteOption};
 use sylvia::into_response::IntoResponse;
 
 #[derive(serde::Serialize, serde::Deserialize, Clone, Debug, PartialEq, schemars::JsonSchema)]
@@ -17,19 +20,28 @@ fn coin(n: u128) -> Coin {
 }
 
 pub fn msg_alphabet() -> Vec<(&'static str, CosmosMsg<Empty>)> {
-    #[allow(deprecated)]
-    let v = vec![
+    // the variants that exist depend on the framework's cargo features; the suite is built once per explored feature subset
+    #[allow(deprecated, unused_mut)]
+    let mut v = vec![
         ("wasm_execute", CosmosMsg::Wasm(WasmMsg::Execute { contract_addr: "c".into(), msg: Binary::from(b"{}".to_vec()), funds: vec![coin(1)] })),
         ("bank_send", CosmosMsg::Bank(BankMsg::Send { to_address: "t".into(), amount: vec![coin(2)] })),
-        ("staking_delegate", CosmosMsg::Staking(StakingMsg::Delegate { validator: "v".into(), amount: coin(3) })),
-        ("distribution_withdraw", CosmosMsg::Distribution(DistributionMsg::SetWithdrawAddress { address: "w".into() })),
         ("custom_empty", CosmosMsg::Custom(Empty {})),
-        ("ibc_transfer", CosmosMsg::Ibc(IbcMsg::Transfer { channel_id: "ch".into(), to_address: "r".into(), amount: coin(4), timeout: IbcTimeout::with_timestamp(Timestamp::from_nanos(5)), memo: None })),
-        ("gov_vote", CosmosMsg::Gov(GovMsg::Vote { proposal_id: 7, option: VoteOption::Yes })),
-        ("any", CosmosMsg::Any(AnyMsg { type_url: "/a.B".into(), value: Binary::from(vec![1u8, 2]) })),
-        ("stargate", CosmosMsg::Stargate { type_url: "/s.T".into(), value: Binary::from(vec![3u8]) }),
         ("wasm_instantiate", CosmosMsg::Wasm(WasmMsg::Instantiate { admin: Some("adm".into()), code_id: 9, msg: Binary::from(b"{}".to_vec()), funds: vec![], label: "l".into() })),
     ];
+    #[cfg(feature = "f_staking")]
+    {
+        v.push(("staking_delegate", CosmosMsg::Staking(StakingMsg::Delegate { validator: "v".into(), amount: coin(3) })));
+        v.push(("distribution_withdraw", CosmosMsg::Distribution(DistributionMsg::SetWithdrawAddress { address: "w".into() })));
+    }
+    #[cfg(feature = "f_stargate")]
+    #[allow(deprecated)]
+    {
+        v.push(("ibc_transfer", CosmosMsg::Ibc(IbcMsg::Transfer { channel_id: "ch".into(), to_address: "r".into(), amount: coin(4), timeout: IbcTimeout::with_timestamp(Timestamp::from_nanos(5)), memo: None })));
+        v.push(("gov_vote", CosmosMsg::Gov(GovMsg::Vote { proposal_id: 7, option: VoteOption::Yes })));
+        v.push(("stargate", CosmosMsg::Stargate { type_url: "/s.T".into(), value: Binary::from(vec![3u8]) }));
+    }
+    #[cfg(feature = "f_cw20")]
+    v.push(("any", CosmosMsg::Any(AnyMsg { type_url: "/a.B".into(), value: Binary::from(vec![1u8, 2]) })));
     v
 }
 
@@ -108,12 +120,18 @@ fn kind_of(m: &CosmosMsg<Empty>) -> &'static str {
     match m {
         CosmosMsg::Bank(_) => "bank",
         CosmosMsg::Custom(_) => "custom",
+        #[cfg(feature = "f_staking")]
         CosmosMsg::Staking(_) => "staking",
+        #[cfg(feature = "f_staking")]
         CosmosMsg::Distribution(_) => "distribution",
+        #[cfg(feature = "f_stargate")]
         CosmosMsg::Stargate { .. } => "stargate",
+        #[cfg(feature = "f_cw20")]
         CosmosMsg::Any(_) => "any",
+        #[cfg(feature = "f_stargate")]
         CosmosMsg::Ibc(_) => "ibc",
         CosmosMsg::Wasm(_) => "wasm",
+        #[cfg(feature = "f_stargate")]
         CosmosMsg::Gov(_) => "gov",
         _ => "other",
     }
@@ -159,5 +177,6 @@ pub fn run(tier: &str) -> String {
     json!({"suite": "intoresp", "responses": stats.0, "errors": stats.1, "bad": stats.2, "message_lists": n_lists, "nontrivial": nontrivial,
         "outcomes": stats.3.iter().collect::<Vec<_>>(), "submsg_alphabet": firsts.len(), "msg_kinds": msg_alphabet().iter().map(|x| x.0).collect::<Vec<_>>(),
         "violations": viol,
+        "features": [cfg!(feature = "f_staking"), cfg!(feature = "f_stargate"), cfg!(feature = "f_cw20")],
         "sample": {"messages": [firsts[5].0.clone(), seconds[1].0.clone()], "attributes": 1, "events": 2, "data": "AQID"}}).to_string()
 }
